@@ -283,3 +283,7 @@ impl Id {
         Id(next)
     }
 }
+
+#[cfg(loom_verif)]
+#[path = "/verif/hooks/execution_verif.rs"]
+pub(crate) mod verif;
